@@ -1,6 +1,6 @@
 #!/bin/bash
 # tools/try_seed.sh <patch> <Cxx> [<Cyy> ...] : apply a seeded change to /repo, run checks, undo
-patch=$1; shift
+patch=$(realpath $1); shift
 git -C /repo apply "$patch" || { echo "patch does not apply"; exit 2; }
 for c in "$@"; do
   echo "== $c"; timeout 1800 /verif/check $c --tier quick 2>&1 | grep -E "VIOLATION|KNOWN|^  " | head -6; echo "rc=${PIPESTATUS[0]}"
